@@ -71,6 +71,23 @@ func classify(a, b Schema) string {
 		if bt == nil {
 			continue
 		}
+		if strings.Join(t.AutoIncCols, ",") != strings.Join(bt.AutoIncCols, ",") {
+			set["autoinc-change"] = true
+		}
+		for _, k1 := range t.Checks {
+			for _, k2 := range bt.Checks {
+				if mayWrap(k1.Expr) == mayWrap(k2.Expr) && k1.Name != k2.Name && (k1.Name == "" || k2.Name == "") {
+					set["check-name-change"] = true
+				}
+			}
+		}
+		for i, k1 := range t.Checks {
+			for j, k2 := range t.Checks {
+				if i < j && mayWrap(k1.Expr) == mayWrap(k2.Expr) {
+					set["dup-check-expr"] = true
+				}
+			}
+		}
 		for _, u := range t.Uniques {
 			kept := false
 			for _, i := range bt.Idx {
@@ -85,6 +102,33 @@ func classify(a, b Schema) string {
 			if !kept {
 				set["drop-inline-unique"] = true
 			}
+		}
+	}
+	// an index name that moves from one current table to another (the receiving table comes first)
+	for ai, t := range a.Tables {
+		for _, i := range t.Idx {
+			for bj, bt := range b.Tables {
+				if bt.Name != t.Name && bt.idx(i.Name) != nil {
+					if at := a.table(bt.Name); at != nil {
+						aj := -1
+						for k := range a.Tables {
+							if a.Tables[k].Name == bt.Name {
+								aj = k
+							}
+						}
+						if aj >= 0 && aj < ai {
+							set["index-name-moves"] = true
+						}
+						_ = bj
+					}
+				}
+			}
+		}
+	}
+	// a current table called new_<t> next to a table <t> that has to be rebuilt
+	for _, t := range a.Tables {
+		if a.table("new_"+t.Name) != nil && b.table(t.Name) != nil {
+			set["new-table-clash"] = true
 		}
 	}
 	if len(set) == 0 {
@@ -170,6 +214,67 @@ func (g *G) witness(class string) (Schema, Schema, bool) {
 					break
 				}
 			}
+		case "autoinc-change":
+			at := a.table(t.Name)
+			if len(at.AutoIncCols) == 1 && at.PK != nil && len(at.PK.Parts) == 1 {
+				t.AutoIncCols = nil
+				ok = true
+			}
+		case "check-name-change":
+			at := a.table(t.Name)
+			for _, c := range at.Cols {
+				if c.Gen == nil && isNumTy(c.Type) && len(at.Checks) == len(t.Checks) {
+					e := "`" + c.Name + "` <> 4"
+					at.Checks = append(at.Checks, Check{Expr: e})
+					t.Checks = append(t.Checks, Check{Name: "ck_named", Expr: e})
+					ok = true
+					break
+				}
+			}
+		case "dup-check-expr":
+			at := a.table(t.Name)
+			for _, c := range at.Cols {
+				if c.Gen == nil && isNumTy(c.Type) && len(at.Checks) == len(t.Checks) {
+					e := "`" + c.Name + "` <> 3"
+					at.Checks = append(at.Checks, Check{Expr: e}, Check{Name: "ck_dup", Expr: e})
+					t.Checks = append(t.Checks, Check{Expr: e})
+					ok = true
+					break
+				}
+			}
+		case "index-name-moves":
+			if len(a.Tables) >= 2 {
+				first, last := &a.Tables[0], &a.Tables[len(a.Tables)-1]
+				bf, bl := b.table(first.Name), b.table(last.Name)
+				nm := "idx_moving"
+				if !nameUsed(&a, nm) {
+					last.Idx = append(last.Idx, Idx{Name: nm, Parts: []Part{{Seq: 1, Col: storedCols(last)[0]}}})
+					bf.Idx = append(bf.Idx, Idx{Name: nm, Parts: []Part{{Seq: 1, Col: storedCols(bf)[0]}}})
+					_ = bl
+					ok = true
+				}
+			}
+		case "new-table-clash":
+			at := a.table(t.Name)
+			if a.table("new_"+t.Name) == nil && !nameUsed(&a, "new_"+t.Name) {
+				extra := Table{Name: "new_" + t.Name, Cols: []Col{{Name: "id", Type: "int", Null: true}}}
+				a.Tables = append(a.Tables, extra)
+				b.Tables = append(b.Tables, extra.clone())
+				bt := b.table(t.Name)
+				c := &bt.Cols[len(bt.Cols)-1]
+				if c.Gen == nil && !hasStr(bt.AutoIncCols, c.Name) && at != nil {
+					inPK := false
+					if bt.PK != nil {
+						for _, p := range bt.PK.Parts {
+							inPK = inPK || p.Col == c.Name
+						}
+					}
+					if !inPK {
+						c.Null = !c.Null // forces the rebuild
+						ok = true
+					}
+				}
+			}
 		case "drop-inline-unique":
 			at := a.table(t.Name)
 			cols := storedCols(at)
@@ -179,11 +284,11 @@ func (g *G) witness(class string) (Schema, Schema, bool) {
 				ok = true
 			}
 		}
-		if ok && classify(a, b) == class && classify(Schema{}, a) == "none" && validSQLite(a) == nil {
+		if ok && classify(a, b) == class && validSQLite(a) == nil {
 			return a, b, true
 		}
 	}
 	return Schema{}, Schema{}, false
 }
 
-var knownClasses = []string{"two-unnamed-fks", "gen-col-name-prefix", "pk-order", "pk-desc", "raw-default-parens", "check-parens", "drop-inline-unique"}
+var knownClasses = []string{"check-name-change", "index-name-moves", "new-table-clash", "autoinc-change", "dup-check-expr", "two-unnamed-fks", "gen-col-name-prefix", "pk-order", "pk-desc", "raw-default-parens", "check-parens", "drop-inline-unique"}
